@@ -413,3 +413,44 @@ def check(model, rep):
                    'that dtype makes disp() raise TypeError instead of returning the rendering' % (lacking[0] if lacking else '?'), line=line)
     rep.count('R20.5 round() calls on raw elements', n_round)
     rep.floor('R20.5', 'round() calls on raw elements', n_round, 1)
+
+    # ---------------------------------------------------------------- R20.7
+    # disp renders a Screw / Wrench (and lists of them) by reading `shape` and indexing the payload as `data[i, 0]` / `matrix[i][j]` over a
+    # 6 x 1 grid: whatever array a Screw is built from, the payload it stores must be that 6 x 1 column.
+    from ..engine.paths import paths_of
+    rep.rule('R20.7', 'payload of a Screw / Wrench is stored as a 6x1 column on every path of Screw.__init__ (a reshape to (6,1), a (6,1) zero '
+                      'column, or the argument itself only under the fact that its shape is (6,1)): disp indexes wrenches over that grid')
+    screw_init = model.cls('basic_robotics.general.faser_screw', 'Screw').methods.get('__init__')
+    if screw_init is None:
+        raise AnalysisError('anchor vanished: Screw.__init__')
+    dparam = screw_init.params[1]
+    n_store = 0
+
+    def column(text):
+        e = ast.parse(text, mode='eval').body
+        if isinstance(e, ast.Call) and isinstance(e.func, ast.Attribute) and e.func.attr == 'reshape':
+            args = e.args[1:] if norm_text(e.func.value) in ('np', 'numpy') else e.args        # np.reshape(x, shape) / x.reshape(shape)
+            a = args[0].elts if len(args) == 1 and isinstance(args[0], (ast.Tuple, ast.List)) else args
+            return [norm_text(x) for x in a] in (['6', '1'], ['-1', '1'], ['6', '-1'])
+        if isinstance(e, ast.Call) and norm_text(e.func) in ('np.zeros', 'np.ones', 'np.empty') and e.args:
+            return norm_text(e.args[0]) in ('(6,1)', '((6,1))', '[6,1]')
+        return False
+    SHAPE_EQ = ('%s.shape==(6,1)' % dparam, '(6,1)==%s.shape' % dparam)
+    from ..engine import peval as _pe7
+    init_flat = _pe7.flatten({}, screw_init.node, depth=1, impure=True)      # conditional expressions become statements
+    for pth in paths_of(init_flat, screw_init.params):
+        stores = [e for e in pth.events if e[0] == 'store' and e[1] == 'self.data' and len(e) > 3]
+        if not stores:
+            rep.ob('R20.7', screw_init, 'self.data stored on every path', False, 'a path through Screw.__init__ stores no payload', shape=True)
+            continue
+        _k, _t, line, val = stores[-1]
+        n_store += 1
+        is_col = column(val)
+        known_col = any(pth.facts.get(t) is True for t in SHAPE_EQ) or any(pth.facts.get('not' + t) is False for t in SHAPE_EQ) \
+            or any(pth.facts.get(t.replace('==', '!=')) is False for t in SHAPE_EQ)
+        raw_param = norm_text(ast.parse(val, mode='eval').body) == dparam
+        rep.ob('R20.7', screw_init, 'self.data = %s' % val[:50], is_col or (raw_param and known_col),
+               'on a path the payload is stored as `%s` without being brought to shape (6,1) and without a fact that it already has it: a Wrench built '
+               'from a 1x6 row (or any other 6-value layout) keeps that layout while reporting shape (6,1), and disp(wrench) / disp([wrench, ...]) raise '
+               'IndexError instead of returning the rendering' % val[:60], line=line)
+    rep.floor('R20.7', 'payload stores of Screw.__init__', n_store, 2)
